@@ -44,6 +44,7 @@ func runC06(p *Program, e *Engine, r *Result, tier string) {
 	c06Senders(a, "C06.1")
 	c06CloseOrder(a)
 	c06Inert(a)
+	c06Wrappers(a)
 	c06Writers(a)
 	// (5) the reader can always reach its deferred close: its blocking channel operations are released by close(done)
 	c05R2(a, "C06.5", a.Ro.Readers)
@@ -336,6 +337,43 @@ func underClosed(ro *Roles, d DNF) DNF {
 	return out
 }
 
+// c06Wrappers: the exported methods of Watcher answer nothing by themselves: every return hands on the result of the
+// backend's method of the same role (or of another wrapper), so that what a closed backend answers is what the user gets.
+func c06Wrappers(a *An) {
+	ro := a.Ro
+	for _, name := range []string{"Add", "AddWith", "Remove", "WatchList", "Close"} {
+		m := a.P.method(ro.Watcher, name)
+		if m == nil || m.Blocks == nil {
+			continue
+		}
+		var own []string
+		nRet := 0
+		for _, b := range m.Blocks {
+			r, ok := b.Instrs[len(b.Instrs)-1].(*ssa.Return)
+			if !ok {
+				continue
+			}
+			nRet++
+			for _, res := range r.Results {
+				call, isCall := stripConv(res).(*ssa.Call)
+				deleg := false
+				if isCall {
+					if call.Call.IsInvoke() {
+						deleg = true // a method of the backend interface
+					} else if cal := call.Call.StaticCallee(); cal != nil && cal.Signature.Recv() != nil && deref(cal.Signature.Recv().Type()) == types.Type(ro.Watcher) {
+						deleg = true // another wrapper
+					}
+				}
+				if !deleg {
+					own = append(own, a.P.instrPos(r)+" returns "+res.String())
+				}
+			}
+		}
+		a.R.ob("C06.3", "wrapper("+name+")", "the exported method only hands on what the backend answers (it has no answer of its own that could differ once the Watcher is closed)", a.P.pos(m.Pos()), len(own) == 0 && nRet >= 1,
+			sprintf("%d return(s); own answers: %s", nRet, fmtList(own)))
+	}
+}
+
 func c06Inert(a *An) {
 	ro := a.Ro
 	want := map[string]string{"AddWith": "ErrClosed", "Remove": "nil", "WatchList": "nil"}
@@ -602,6 +640,50 @@ func c06Writers(a *An) {
 		if _, ok := f.Type().Underlying().(*types.Chan); ok {
 			chanFields[f] = true
 		}
+	}
+	// every reference-typed field of the backend and of the structs it holds (pointers to the tables, maps, files,
+	// embedded structs): assigned during construction only. An API call that passed the closed test just before Close
+	// still gets valid tables when it obtains the lock (no nil table, no swapped-in empty one).
+	refFields := map[*types.Var]bool{}
+	for f, st := range ro.StructOf {
+		if st == ro.Watcher || chanFields[f] {
+			continue
+		}
+		switch f.Type().Underlying().(type) {
+		case *types.Pointer, *types.Map, *types.Interface, *types.Signature:
+			refFields[f] = true
+		}
+	}
+	refBad := map[*types.Var][]string{}
+	refWriters := map[*types.Var]int{}
+	for _, fn := range a.P.srcFuncs(a.P.Main) {
+		for _, b := range fn.Blocks {
+			for _, in := range b.Instrs {
+				if x, ok := in.(*ssa.Store); ok {
+					if fa, ok := x.Addr.(*ssa.FieldAddr); ok {
+						if f := fieldOf(fa); f != nil && refFields[f] {
+							// a store into a freshly allocated struct is construction of that struct wherever it happens
+							if al, isAl := fa.X.(*ssa.Alloc); isAl && al.Heap || ctorFns[fn] {
+								refWriters[f]++
+								continue
+							}
+							refBad[f] = append(refBad[f], a.P.instrPos(in)+" in "+shortFn(fn))
+						}
+					}
+				}
+			}
+		}
+	}
+	var rfs []*types.Var
+	for f := range refFields {
+		if ro.StructOf[f] == ro.Backend || (ro.Done != nil && ro.StructOf[f] == ro.StructOf[ro.Done]) {
+			rfs = append(rfs, f)
+		}
+	}
+	sort.Slice(rfs, func(i, j int) bool { return fieldStr(ro, rfs[i]) < fieldStr(ro, rfs[j]) })
+	for _, f := range rfs {
+		a.R.ob("C06.4", "ref-writers("+fieldStr(ro, f)+")", "a reference-typed field of the backend (table holder, file, embedded struct) is assigned during construction only: API calls racing with Close never see it replaced or nil", "-",
+			len(refBad[f]) == 0, sprintf("%d constructor store(s); outside construction: %s", refWriters[f], fmtList(refBad[f])))
 	}
 	writers := map[*types.Var][]string{}
 	bad := map[*types.Var][]string{}
